@@ -52,7 +52,7 @@ PROPS = {
         outside="reader/writer schema pairs other than corpus/t_evolve_{w,r}.thrift; more than one unknown field per message; the compact protocol; asynchronous decoding",
     ),
     "C02": dict(
-        modules=["common", "protos", "ref_thrift", "gen_thrift", "c02", "insts_c02"],
+        modules=["common", "protos", "ref_thrift", "gen_thrift", "c02", "insts_c02", "c02d", "insts_c02d"],
         gen=GEN_THRIFT,
         outside="IDL documents other than corpus/t_basic.thrift; containers with more than 2 elements, strings longer than 2 bytes, recursion deeper than 2; hash containers (ahash RandomState needs getrandom, an unsupported foreign call) - btree containers are used; decode_async (see C12); split / keep_unknown_fields builder options (C13)",
     ),
@@ -87,7 +87,7 @@ PROPS = {
         outside="value trees beyond the L0/L1/L2 shapes; message names longer than 2 bytes",
     ),
     "C04": dict(
-        modules=THRIFT_RT + ["gen_thrift", "c02", "insts_c02"],
+        modules=THRIFT_RT + ["gen_thrift", "c02", "insts_c02", "c02d", "insts_c02d"],
         gen=GEN_THRIFT,
         outside="as C01; generated types beyond the corpus",
     ),
@@ -125,6 +125,7 @@ DESCR = [
     (r"c0[24]_\w_gen_(\w+?)_(bin|le|unchecked|compact)$",
      lambda m: dict(fns="emitted <t_basic::%s as Message>::{size, encode, decode} via %s" % (m.group(1), proto(m.group(2))),
                     bound="all leaf values; presence of optionals and container sizes concrete per instance; strings <= 2 bytes")),
+    (r"c0[24]_\w_gend_(\w+)_(w|r)$", lambda m: dict(fns="emitted <t_basic::%s as Message>::%s vs reference encoder (hand-transcribed schema)" % (m.group(1), "encode/size" if m.group(2) == "w" else "decode"), bound="all leaf values; presence/sizes concrete")),
     (r"c07_\w_written_(\w+?)_(bin|le|unchecked|compact)$",
      lambda m: dict(fns="%s: read_field_begin + skip()" % proto(m.group(2)), bound="writer-produced value of shape %s with symbolic leaves, symbolic field id, symbolic 2-byte tail" % m.group(1))),
     (r"c07_\w_depth(\d)_limit(\d+)_(\w+)$",
